@@ -390,7 +390,7 @@ fn retime(ms: &mut Vec<Mapping>, rng: &mut Rng, mode: usize) {
       keys.push(k);
     }
     let (d, i) = match mode {
-      1 => (1 + rng.below(3) as i32, 1 + rng.below(3) as i32),              // tiny: the tick is late (now >= next_wakeup)
+      1 => (rng.below(4) as i32, rng.below(4) as i32),                      // tiny, zero included: the tick is late (now >= next_wakeup)
       2 => (if rng.chance(1, 2) { -1 - (rng.below(1000) as i32) } else { *rng.pick(&DELAYS) },
             if rng.chance(1, 2) { -1 - (rng.below(1000) as i32) } else { *rng.pick(&INTERVALS) }),  // negative: `as u64` wraps
       _ => {
